@@ -102,9 +102,12 @@ async def run_case(ctx, rng, index):
             finally:
                 b.dispose()
         # a schema marked @nonIntrospectable refuses introspection
-        if index % 5 == 0:
+        for where in (("def", "ext-ops", "ext-only") if index % 2 == 0 else ()):
+            # the directive sits on `schema`, on `extend schema @d {..}` (with operations), or on a directive-only `extend schema @d`
             s.non_introspectable = True
-            parts2 = sdlgen.chunks(rng, s, 0.9)     # the directive may sit on `schema`, on `extend schema @d`, or on `extend schema @d {..}`
+            parts2 = sdlgen.chunks(rng, s, 0.9, schema_where=where)
+            st.inc("non_introspectable_placement:" + ("ext-ops" if any(p_.startswith("extend schema @") and "{" in p_ for p_ in parts2)
+                                                      else "ext-only" if any(p_.startswith("extend schema @") for p_ in parts2) else "def"))
             try:
                 b = harness.Bundle(s, sdl="\n\n".join(parts2))
                 await b.build()
